@@ -52,7 +52,7 @@ _CFG = {
     "C03": {"scenarios": ["seq"], "streams": [CMDFNS], "trusted": RUNTIME_TRUST},
     "C04": {"scenarios": ["term", "pty"], "streams": [LIFE, READER], "trusted": RUNTIME_TRUST},
     "C05": {"scenarios": ["modes", "exec", "pty"], "streams": [GLUE], "trusted": RENDER_TRUST},
-    "C06": {"streams": [VT, RENDER_INFO], "rule": RENDER_RULE, "trusted": RENDER_TRUST},
+    "C06": {"streams": [VT, RENDER_INFO], "scenarios": ["wide"], "rule": RENDER_RULE, "trusted": RENDER_TRUST},
     "C07": {"streams": [VT, RENDER_INFO], "scenarios": ["final"], "rule": RENDER_RULE, "trusted": RENDER_TRUST},
     "C08": {"streams": [DETECT, READER], "rule": INPUT_RULE, "trusted": INPUT_TRUST},
     "C09": {"streams": [DETECT, READER], "rule": INPUT_RULE, "trusted": INPUT_TRUST,
